@@ -153,7 +153,7 @@ func (x *ctxInfo) verdict(out clientx.Outcome, f string, p int, first string) {
 	readsAfter := func(marker func(e xport.Event) bool) int {
 		n, seen := 0, false
 		for _, e := range out.Events {
-			if seen && e.Op == "read" {
+			if seen && e.Op == "read" && !e.Expired {
 				n++
 			}
 			if marker(e) {
@@ -192,7 +192,7 @@ func (x *ctxInfo) verdict(out clientx.Outcome, f string, p int, first string) {
 		k := out.Conn.S.CancelAtRead
 		reads := 0
 		for _, e := range out.Events {
-			if e.Op == "read" {
+			if e.Op == "read" && !e.Expired { // the script's reads; a read that found its deadline already expired is not one of them
 				reads++
 			}
 		}
